@@ -11,7 +11,6 @@ DEMO=$(ls "$D"/*.rs | head -1); NAME=$(basename "$DEMO" .rs)
 DEST=$(grep -o "cp [^ ]*$NAME.rs [^ ]*" "$D/README.md" | head -1 | awk '{print $3}'); DEST=${DEST:-zlink-core/tests/}
 case "$DEST" in /*) DEST=${DEST#$W/}; DEST=${DEST#/tmp/wt-*/};; esac
 CMD=$(grep -o "cargo test [^\`]*--test $NAME[^\`]*" "$D/README.md" | head -1); CMD=${CMD:-cargo test -p zlink-core --offline --test $NAME}
-mkdir -p "$(dirname "$DEST/x")"
 case "$DEST" in *.rs) mkdir -p "$(dirname "$DEST")"; cp "$DEMO" "$DEST"; INST="$DEST";; *) mkdir -p "$DEST"; cp "$DEMO" "$DEST/"; INST="$DEST/$NAME.rs";; esac
 export CARGO_NET_OFFLINE=true
 $CMD > "$D/confirm_demo_clean.log" 2>&1; A=$?
